@@ -14,7 +14,7 @@ import re
 from ..engine import rule, run_property
 from ..model import Undecided, template_placeholders, xml_context
 from ..cfg import dotted, call_name, is_call, simple_name, unparse, const_value, contains, enclosing
-from ..flow import Defs, depends, consteval, try_const, NotConst
+from ..flow import Canon, Defs, depends, consteval, try_const, NotConst
 from ..decide import table, ret_kind
 from ..util import component_expr, resolve1, keyword, returns_of, calls_in, inside, order_key
 
@@ -506,3 +506,49 @@ def c02g(ctx):
     for o in sub.obs:
         (ctx.ok if o.status == 'ok' else ctx.bad)('%s:%s' % (o.rule, o.construct), o.msg, o.where)
     ctx.stats['functions'] |= sub.stats['functions']
+
+
+C02H = ['mapproxy/grid.py:TileGrid.tile_bbox', 'mapproxy/grid.py:TileGrid._tiles_bbox', 'mapproxy/grid.py:TileGrid.tile',
+        'mapproxy/grid.py:TileGrid.origin_tile', 'mapproxy/grid.py:TileGrid.flip_tile_coord', 'mapproxy/grid.py:TileGrid._calc_bbox',
+        'mapproxy/grid.py:TileGrid._calc_grids']
+
+
+@rule('C02.h', floor=5)
+def c02h(ctx):
+    """the rectangle computed for an address uses the tile width on the x axis and the tile height on the y axis in every branch
+    (also for north-west grids): axis discipline of the address <-> rectangle functions (qualifier system of C03.a)"""
+    from ..axis import axis_reports
+    for q in C02H:
+        f = ctx.fn(q)
+        reps = axis_reports(f)
+        if not reps:
+            ctx.ok('%s:axis-clean' % f.short, 'no expression mixes X and Y quantities (qualifier system of C03.a)', f)
+        for k, (node, msg) in enumerate(reps):
+            ctx.bad('%s:axis-mix%d' % (f.short, k), msg + ' -- with non-square tiles the advertised TileWidth/TileHeight no longer describe the '
+                    'rectangle that is served', f, node)
+
+
+@rule('C02.i', floor=2)
+def c02i(ctx):
+    """KML: the LatLonBox advertised for a linked sub tile is the full rectangle of that tile address (the one the tile is rendered
+    for) -- grid.tile_bbox(coord) of the same coordinate, not clipped to the grid extent"""
+    fn = ctx.fn('mapproxy/service/kml.py:KMLServer._get_subtiles')
+    cf = Canon(fn)
+    defs = Defs(fn.node)
+    subs = [x for x in fn.walk() if is_call(x, 'SubTile')]
+    if not subs:
+        raise Undecided('KMLServer._get_subtiles: no SubTile(...)')
+    for x in subs:
+        box = cf.expr(x.args[1]) if len(x.args) > 1 else None
+        tb = [c for c in ast.walk(box) if is_call(c, 'tile_bbox')] if box is not None else []
+        lim = [keyword(c, 'limit', 1) for c in tb]
+        ok = len(tb) == 1 and all(l is None or const_value(l, 1) is False for l in lim)
+        ctx.check(ok, 'KMLServer._get_subtiles:box-not-clipped', 'the advertised box of a sub tile is grid.tile_bbox(coord) without limit', fn, x,
+                  fail='the LatLonBox advertised for a sub tile is clipped to the grid extent (limit=True) while the linked tile is rendered for the '
+                       'full tile rectangle: at the border of a grid whose extent is not a multiple of the tile size the image is draped over the wrong box')
+        # box and address belong to the same coordinate of the loop
+        if tb:
+            cvar = tb[0].args[0] if tb[0].args else None
+            same = cvar is not None and depends(x.args[0], lambda y: isinstance(y, ast.Name) and unparse(y) == unparse(cvar), defs) or \
+                (cvar is not None and unparse(cvar) in {n.id for n in ast.walk(cf.expr(x.args[0])) if isinstance(n, ast.Name)})
+            ctx.check(bool(same), 'KMLServer._get_subtiles:box-of-same-address', 'the box and the address of a sub tile come from the same grid coordinate', fn, x)
